@@ -862,6 +862,9 @@ static Node gen_re_class(Src& s)
 
 struct ReGenCtx
 {
+  int in_repeat = 0;  // zero-width assertions are not generated inside repeat bodies:
+                      // /(^)+?a/ or /(\\b)*?a/ make the scan spin forever (recorded
+                      // under C15); excluded here by construction so the search goes on
   bool lazy = false;
   int budget = 14;
   bool allow_big_jump = true;
@@ -921,7 +924,8 @@ static Node gen_re_node(Src& s, ReGenCtx& cx, int depth)
 {
   cx.budget--;
   bytes al = re_alphabet();
-  int kind = (int) s.weighted({34, 8, 12, depth < 3 ? 14 : 0, depth < 3 ? 22 : 8, 4, 3, 3});
+  int za = cx.in_repeat ? 0 : 1;
+  int kind = (int) s.weighted({34, 8, 12, depth < 3 ? 14 : 0, depth < 3 ? 22 : 8, 4 * za, 3 * za, 3 * za});
   switch (kind)
   {
   case 0:
@@ -991,7 +995,11 @@ static Node gen_re_node(Src& s, ReGenCtx& cx, int depth)
     else if (inner == 2)
       r.ch.push_back(gen_re_class(s));
     else
+    {
+      cx.in_repeat++;
       r.ch.push_back(gen_re_concat(s, cx, depth + 1, 3));
+      cx.in_repeat--;
+    }
     return r;
   }
   case 5:
